@@ -33,7 +33,7 @@ ASSUMPTIONS = ["Iterator::position / enumerate yield positions in the list being
 SINKS = [
     (r"^subset::create_hmtx_table$", "ReadArrayCow::<'a, T>::read_item", 1, "OLD", "source hmtx records"),
     (r"^subset::create_hmtx_table$", "SubsetGlyphs::old_id", 1, "NEW", "argument of old_id"),
-    (r"^tables::glyf::subset::<impl tables::glyf::GlyfTable<'a>>::subset$", "core::slice::<impl [T]>::get", 1, "OLD", "source glyf records"),
+    (r"^tables::glyf::subset::<impl tables::glyf::GlyfTable<'a>>::subset$", "core::slice::<impl [T]>::get", 1, "OLD", "source glyf records", "records"),
     (r"^cff::subset::<impl cff::CFF<'a>>::subset$", "::read_object", 1, "OLD", "source CharStrings INDEX"),
     (r"^cff::subset::<impl cff::CFF<'a>>::subset$", "Charset::<'a>::id_for_glyph", 1, "OLD", "source charset"),
     (r"^cff::subset::<impl cff::CFF<'a>>::subset$", "FDSelect::<'a>::font_dict_index", 1, "OLD", "source FDSelect"),
@@ -119,7 +119,9 @@ def t07_id(run, fx, floors):
     run.rule(rule, "each listed access to a source table is indexed by an operand whose provenance is an old id; each id handed to old_id or stored "
                    "into the output is a new id (table of sinks in rules_C07.SINKS)")
     n = 0
-    for rx, callee, idx, want, what in SINKS:
+    for sink in SINKS:
+        rx, callee, idx, want, what = sink[:5]
+        recv_field = sink[5] if len(sink) > 5 else None       # the call is a sink only when its receiver is this field of the source table
         bs = [b for b in fx.bodies if re.search(rx, b.path) and b.kind != "Closure"]
         if len(bs) != 1:
             run.anchor_missing(rule, rx)
@@ -131,6 +133,8 @@ def t07_id(run, fx, floors):
             for bi, t in fb.calls():
                 if not callee_is(t, callee) or idx >= len(t["args"]):
                     continue
+                if recv_field is not None and not any(x[0] == "field" and x[2] == recv_field for x in sym.walk(prov.op(t["args"][0]))):
+                    continue        # `get` on another slice (the caller's id list, say) is not an access to the source table
                 hits += 1
                 n += 1
                 term = prov.op(t["args"][idx])
